@@ -687,3 +687,16 @@ PROPS["C01"]["level_text"] = ("Proof of refinement to an order-free declarative 
     "The per-condition argument grammar (parse_args table: arity, atom sizes, sanitizers, hint rule) is used by the specification as written in the model (parseAll) - it is not restated independently; it is tied to the code by the correspondence sweep over every opcode x every argument shape x flags. The model as a whole is compared with the real parse_spends on every generated tree: verdict and the full summary.")
 PROPS["C01"]["level_note"] = ("Trusted: Lean kernel + standard axioms; hand model = code only on the cases run; the argument grammar table is shared between specification and model (see level text); blst key validity enters as a per-case oracle (list of valid keys computed by the harness with chia_bls); signature offered is the identity, so BLS verification reduces to `no pairs collected` (C05 covers the signature rule).")
 PROPS["C01"]["technique"] = "Lean 4 refinement theorem (executable parse_spends model <-> order-free declarative acceptance predicate and summary function, for all trees/flags/visitors/limits) + translator for opcode/cost tables + differential correspondence on the full summary"
+
+# ---- C06 / C08: permutation theorems (merged from the prover) ----
+PROPS["C06"]["theorems"] = ['ChiaModel.C06.strict_monotone', 'ChiaModel.C06.strict_flags_only_restrict', 'ChiaModel.C06.strict_mask_only_restrict', 'ChiaModel.C06.strictMask_values', 'ChiaModel.C06.cost_strict_equal', 'ChiaModel.C06.perm_conditions_partial', 'ChiaModel.C06.perm_accept_iff_partial', 'ChiaModel.C06.perm_accept', 'ChiaModel.C06.perm_conditions_fields_partial', 'ChiaModel.C06.perm_conditions_loop_partial', 'ChiaModel.C06.wrapF_clear_ff', 'ChiaModel.C06.perm_conditions_spend_partial', 'ChiaModel.C06.condLoop_factorisation', 'ChiaModel.C06.perm_spends', 'ChiaModel.C06.perm_spends_accept_iff', 'ChiaModel.C06.perm_conditions_bundle', 'ChiaModel.C06.perm_conditions_bundle_accept_iff']
+PROPS["C06"]["open"] = []
+PROPS["C06"]["level"] = 'proof'
+PROPS["C06"]["level_text"] = 'Proof of both sentences. strict_monotone / strict_mask_only_restrict: for every tree, limit, visitor and each of the 8 subsets of the strictness flags, if the parse_spends model accepts with the flags set it accepts without them with the identical bundle summary, parse state and cost (all 35 argument grammars, the spend limit, the unknown-condition rule). Ordering, whole of parse_spends (via the refinement C01_refines to the order-free rules): perm_spends - any permutation of the spends is accepted iff the original is (given a signature verdict that does not depend on the order of the pairs), with equal cost, condition/execution cost, removal/addition amounts, reserve fee, the four absolute locks and spend count; the spend records are permuted accordingly (every field, both eligibility flags) and agg_sig_unsafe up to listing order. perm_conditions_bundle - permuting the conditions of one spend: accepted iff the original is, same aggregates, all other spend records identical, the record of that spend equal up to the listing order of create_coin / agg_sig_* and up to ELIGIBLE_FOR_FF, and ELIGIBLE_FOR_FF included unless the mempool visitor sees an ASSERT_MY_PARENT_ID in that spend (the positional rule). The index-based deferred rules (ASSERT_EPHEMERAL, not-ephemeral) are put in index-free form (eph_clauses_iff). The per-loop / per-spend statements (perm_conditions_loop_partial, condLoop_factorisation) remain as lemma-level theorems. The metamorphic correspondence checks both sentences on the real code.'
+PROPS["C06"]["level_note"] = 'Trusted: Lean kernel + standard axioms; model = code on the cases run. Which error a rejected bundle reports may depend on order (not part of the property).'
+PROPS["C08"]["theorems"] = ['ChiaModel.C08.bundle_path_eq_block_path', 'ChiaModel.C08.bundle_path_eq_block_path_partial', 'ChiaModel.C08.bundle_path_eq_block_path_reversed_partial', 'ChiaModel.C08.generator_length', 'ChiaModel.C08.base_cost_offset', 'ChiaModel.C11.clvmBytesLen_ok', 'ChiaModel.C04.limit_exact', 'ChiaModel.C04.runSpendbundle_limit_exact', 'ChiaModel.C02.spendbundle_invariants']
+PROPS["C08"]["open"] = ['INTERNED_GENERATOR mode and the back-reference-compressed / block-builder serialisations are covered by correspondence only (decoder = clvmr, external)', 'top-level statement is accept/accept; equality of error kinds is proved at loop level only (LIMIT_SPENDS is checked up front by the bundle path, inside the loop by the native path)']
+PROPS["C08"]["level"] = 'other'
+PROPS["C08"]["level_text"] = "Partial proof + correspondence. Proved for all bundles of well-formed coin spends with matching declared puzzle hashes, without INTERNED_GENERATOR: run_spendbundle(css, L) accepts (and its signature check passes) iff run_block_generator2 accepts the quoted generator that lists the same spends in the same order under L + 20 + 2*cost_per_byte; the two summaries agree up to the mempool visitor's eligibility bits (spends, fee, locks, amounts, condition cost equal), native cost = bundle cost + 20 + 2*cost_per_byte and execution cost differs by the quote's 20; the predicted generator length equals the serialised length (generator_length, with clvm_bytes_len from the translator). bundle_path_eq_block_path states the same for build_generator's own (reversed) order, the block path's puzzle runs re-indexed and the spend records coming out in reverse order (runSpendbundle_reverse: the order of the spends does not matter to run_spendbundle, via the C01 refinement of the spend loop and the C06 permutation lemmas; needs a signature verdict that is independent of the order of the pairs). INTERNED_GENERATOR mode and the compressed serialisations remain correspondence-only, hence level other. All serialisation modes and both builders are compared on every generated bundle by correspondence (byte-exact generators, both block paths)."
+PROPS["C08"]["level_note"] = 'Trusted: clvmr interpreter and serialisers (oracle values / byte comparison); harness; model = code on the cases run.'
+PROPS["C08"]["technique"] = "Lean 4 theorems relating the mempool-path and block-path models (same order and build_generator's reversed order) + translator for clvm_bytes_len + differential correspondence incl. byte-exact generator serialisation"
